@@ -1,5 +1,5 @@
 /* C11 - contracts on cocls::thread_pool (src/cocls/thread_pool.h), pool level.
- * Vocabulary: lib/model_tpool.c (closures as linear ghost ids with one tracked closure gh_C; abstract task queue; worker list; rely of the
+ * Vocabulary: lib/model_tpool2.c (closures as linear ghost ids with one tracked closure gh_C; abstract task queue; worker list; rely of the
  * pool mutex) and lib/model_mutex.c (lock discipline).  gh_pool is the pool (allocated and assigned by the harness, see h_tp.c).
  * Every contract pins the whole model state at entry (DFCC starts from nondeterministic statics) and runs with the rely switched on: at each
  * acquisition of the pool mutex the other threads have executed any number of complete critical sections (thread-modular reading).
@@ -82,8 +82,13 @@ __CPROVER_ensures(tm.pool_dead == 1 ==> CUR == 0)
 
 /* ---- stop() ---------------------------------------------------------------------------------------------------------------------------------
  * one critical section: exit flag set, all workers notified, worker list and task queue swapped out; then - with the mutex released - every
- * worker of the swapped-out list is joined, except the calling thread itself, which is detached and stops being a pool thread
- * (current-pool pointer reset); finally every swapped-out closure is destroyed un-run exactly once (= cancelled), still outside the lock.
+ * swapped-out closure is destroyed un-run exactly once (= cancelled) BEFORE THE FIRST JOIN (a job still running on a worker may be the waiter of
+ * one of them: "never forgotten with a waiter left hanging", "without deadlock for every timing"; obligation C11-JOIN-ORDER inside the join
+ * primitive of lib/model_tpool2.c), and every worker of the swapped-out list is joined, except the calling thread itself, which is detached and
+ * stops being a pool thread (current-pool pointer reset).
+ * "join ALL workers": the list this stop() takes holds every worker exactly when it finds the exit flag clear (first clause on tm.env_unjoined).
+ * A stop() that finds the flag already set finds an EMPTY list: the workers are in the hands of the thread that stopped first, which may still
+ * be joining them - the clause "no worker is left running when stop() returns" for that case is unit stop_concurrent (C11_STOP_JOINS_ALL).
  * "for every worker" = the arbitrary tracked index gh_TK (its original id is the logical variable gh_tid0); obligations asserted inside the
  * primitives: no join under the lock, no self-join, only joinable threads joined / detached, no joinable thread destroyed.
  * LIVENESS (the joins return, no deadlock for every timing) is NOT claimed: safety obligations only. */
@@ -108,7 +113,7 @@ __CPROVER_assigns(TP_ASSIGNS, CUR, __CPROVER_object_whole(gh_tv))
 __CPROVER_ensures(cv_exc_pending == 0 && ONE_CS)
 /* inside the one critical section: flag set, workers notified, both containers swapped out (the pool's members are empty at the release) */
 __CPROVER_ensures(tm.exit_at_unlock == 1 && tm.n_notify_all >= 1 && tm.len_at_unlock == 0 && tm.thr_empty_at_unlock == 1)
-/* every closure that was queued at that instant is destroyed un-run exactly once (cancelled) - none invoked, none kept */
+/* every closure that was queued at that instant is destroyed un-run exactly once (cancelled) - none invoked, none kept; that this happens before the first join is asserted in thr_join (C11-JOIN-ORDER) */
 __CPROVER_ensures(tm.lq_live == 0 && tm.n_unrun == tm.len_at_lock && tm.n_invoked == 0 && tm.n_ran == 0 && tm.n_push == 0 && tm.n_deq == 0)
 __CPROVER_ensures(tm.c_invoked == 0 && tm.c_ran == 0 && (tm.c_where_at_lock == C_QUEUED ? (tm.c_where == C_GONE && tm.c_unrun == 1) : (tm.c_where == tm.c_where_at_lock && tm.c_unrun == 0)))
 /* every worker of the swapped-out list is dealt with exactly once: the caller itself detached, every other one joined */
@@ -116,22 +121,40 @@ __CPROVER_ensures(tt.n_join + tt.n_detach == tm.nthr_at_lock)
 __CPROVER_ensures(gh_TK < tm.nthr_at_lock ==> (TV_TRK == 0 && tt.t_detach == (gh_tid0 == gh_me ? 1 : 0) && tt.t_join == (gh_tid0 == gh_me ? 0 : 1)))
 /* called from one of the pool's own threads: that thread stops being a pool thread; otherwise the current-pool pointer is untouched */
 __CPROVER_ensures(tt.n_detach == 0 ? CUR == gh_cur0 : CUR == 0)
+/* "join all workers": a stop() that found the pool running had every worker in the list it took (and dealt with each of them, clauses above) */
+__CPROVER_ensures(tm.exit_at_lock == 0 ==> tm.env_unjoined == 0)
+#if defined(C11_STOP_JOINS_ALL) && !defined(CV_CHECK_C03)      /* a C11 clause: not part of the lock-discipline re-runs for C03 */
+/* ... and for EVERY stop(), also one that lost the race against another thread's stop(): when it returns no worker of the pool is still running
+ * somewhere out of reach (the caller may rely on "the pool is quiet now", e.g. to destroy what the jobs use) */
+__CPROVER_ensures(tm.env_unjoined == 0)       /* C11-OPEN2-workers-taken-by-concurrent-stop: stop() returns while the workers are still being joined by the thread that stopped first */
+#endif
 ;
 #endif
 
 /* ---- ~thread_pool(): stops the pool exactly once, then the members die: no joinable worker and no queued closure may be left ------------------
  * forwarder unit: stop() is an abstract callee here (its own unit proves its contract); the stub records the call and establishes what
- * stop() guarantees at its release of the mutex (flag set, both containers empty). */
+ * stop() guarantees: at its acquisition of the mutex the other threads have acted (rely step - a concurrent stop() from a pool thread may have
+ * taken the worker list first), at its release the flag is set and both containers are empty, every worker it found in the list is joined (the
+ * caller itself detached, current-pool pointer reset).
+ * "the destructor terminate[s] and join[s] all workers ... for every timing, including when invoked from one of the pool's own threads": when
+ * ~thread_pool returns the object is gone, so NO worker may be left that can still touch it - in particular none that another thread's stop()
+ * took out of the list and has not joined yet (tm.env_unjoined).  This is what entitles worker() to its assumption "nobody but my own job
+ * destroys the pool while I may touch it". */
 #ifdef CV_HAS_tp_dtor
 int gh_stop_calls;
 #ifdef CV_HAS_tp_stop_abs
-void tp_stop_abs(TP *p) { gh_stop_calls++; __CPROVER_assert(!(gh_lock_depth > 0), "stop() called while holding the pool mutex"); p->_exit = 1; tm.q_len = 0; TV(&p->_threads)->e = TV(&p->_threads)->b; }
+void tp_stop_abs(TP *p) { gh_stop_calls++; __CPROVER_assert(!(gh_lock_depth > 0), "stop() called while holding the pool mutex");
+  if (tm.rely_on) tp_rely(p);                                                        /* stop() takes the mutex: the others have acted (contract of stop(): exit_at_lock / env_unjoined clauses) */
+  p->_exit = 1; tm.q_len = 0; TV(&p->_threads)->e = TV(&p->_threads)->b; }          /* the workers it found are joined; those another stop() took are not its business */
 #endif
 void tp_dtor(TP *this_)
 __CPROVER_requires(TP_PRE(this_) && gh_stop_calls == 0 && (tm.c_where == C_ELSEWHERE || tm.c_where == C_QUEUED) && TV(&this_->_threads)->b == gh_tv)
 __CPROVER_assigns(TP_ASSIGNS, gh_stop_calls)
 __CPROVER_ensures(cv_exc_pending == 0 && gh_stop_calls == 1 && gh_lock_depth == 0)
 __CPROVER_ensures(tm.n_invoked == 0 && tm.n_unrun == 0 && tm.n_ran == 0)      /* the member destructors find nothing left to destroy: stop() dealt with every closure */
+#ifndef CV_CHECK_C03
+__CPROVER_ensures(tm.env_unjoined == 0)       /* C11-OPEN2-workers-taken-by-concurrent-stop: ~thread_pool returns while workers taken by a concurrent stop() are still running - they touch the destroyed pool */
+#endif
 ;
 #endif
 
@@ -178,7 +201,7 @@ __CPROVER_ensures(CUR != 0 ==> (ONE_CS && __CPROVER_return_value == tm.exit_at_l
 /* ---- resume(suspend_point<void>&): the forwarding facts, for suspend points of ANY size in both representations (loop contract) --------------
  * every handle is popped exactly once, wrapped in exactly one closure that captures exactly that handle, and that closure is offered exactly
  * once to THIS pool; nothing is resumed on the calling thread; a closure the pool rejects (pool stopped) is destroyed un-run by resume() itself.
- * The closure's construction, enqueue and the destructor of function<> are abstract here (a closure is the cell of lib/model_tpool.c: id 1 =
+ * The closure's construction, enqueue and the destructor of function<> are abstract here (a closure is the cell of lib/model_tpool2.c: id 1 =
  * the closure built for the tracked handle H(spt, gh_G), id 2 = any other).  What the destruction of an un-run closure of THIS kind does to its
  * coroutine is decided on the real closure in unit resume_sp_stopped (known finding: nothing). */
 #ifdef CV_HAS_rs_resume_sp
